@@ -1,17 +1,2339 @@
-//! G-PROG: grammar-based program generator (see DESIGN §3). Filled in incrementally.
+//! G-PROG: grammar-based program generator (constructive, no rejection).
+//!
+//! A program is generated as a flat list of pieces: tokens, comment slots (the positions C03
+//! names) and node brackets (the nodes that accept attributes, for C04/C17). `render` lays the
+//! pieces out with generated whitespace, optionally inserting uniquely numbered comments into
+//! slots, and reports where every node and comment ended up.
 
 use crate::choices::Choices;
 
-pub struct Prog {
-    pub text: String,
-    pub min_edition: &'static str,
-    pub tags: Vec<String>,
+#[derive(Debug, Clone, Copy, PartialEq, Eq, Hash)]
+pub enum SlotKind {
+    BetweenItems,
+    BetweenStmts,
+    BetweenFields,
+    BetweenVariants,
+    BetweenArms,
+    BetweenParams,
+    BetweenArgs,
+    /// after the separator of a list element / statement, on the same line
+    EndOfLine,
 }
 
-pub fn gen_prog(_c: &mut Choices<'_>) -> Prog {
-    Prog {
-        text: "fn main() {}\n".into(),
-        min_edition: "2015",
+impl SlotKind {
+    pub fn name(self) -> &'static str {
+        match self {
+            SlotKind::BetweenItems => "between-items",
+            SlotKind::BetweenStmts => "between-stmts",
+            SlotKind::BetweenFields => "between-fields",
+            SlotKind::BetweenVariants => "between-variants",
+            SlotKind::BetweenArms => "between-arms",
+            SlotKind::BetweenParams => "between-params",
+            SlotKind::BetweenArgs => "between-args",
+            SlotKind::EndOfLine => "end-of-line",
+        }
+    }
+}
+
+#[derive(Debug, Clone, Copy, PartialEq, Eq, Hash)]
+pub enum NodeKind {
+    Item,
+    NestedItem,
+    AssocItem,
+    ForeignItem,
+    LetStmt,
+    ExprStmt,
+    MacStmt,
+    Expr,
+    Field,
+    Variant,
+    Arm,
+    InlineMod,
+}
+
+impl NodeKind {
+    pub fn name(self) -> &'static str {
+        match self {
+            NodeKind::Item => "item",
+            NodeKind::NestedItem => "nested-item",
+            NodeKind::AssocItem => "assoc-item",
+            NodeKind::ForeignItem => "foreign-item",
+            NodeKind::LetStmt => "let-stmt",
+            NodeKind::ExprStmt => "expr-stmt",
+            NodeKind::MacStmt => "mac-stmt",
+            NodeKind::Expr => "expr",
+            NodeKind::Field => "field",
+            NodeKind::Variant => "variant",
+            NodeKind::Arm => "arm",
+            NodeKind::InlineMod => "inline-mod",
+        }
+    }
+    pub fn is_stmt(self) -> bool {
+        matches!(self, NodeKind::LetStmt | NodeKind::ExprStmt | NodeKind::MacStmt)
+    }
+}
+
+#[derive(Debug, Clone)]
+pub enum Piece {
+    Tok(String),
+    Slot(SlotKind),
+    NodeStart(NodeKind, usize, /* inside a fn body */ bool),
+    NodeEnd(usize),
+}
+
+pub struct Prog {
+    pub pieces: Vec<Piece>,
+    pub min_edition: &'static str,
+    /// uses `try!`: parses only under edition 2015
+    pub only_2015: bool,
+    pub tags: Vec<&'static str>,
+    pub n_nodes: usize,
+}
+
+struct G<'a, 'b> {
+    c: &'a mut Choices<'b>,
+    p: Vec<Piece>,
+    tags: Vec<&'static str>,
+    next_node: usize,
+    min_edition: &'static str,
+    max_depth: usize,
+    max_arity: usize,
+    in_fn: usize,
+    budget: isize,
+    only_2015: bool,
+    /// the operand being generated is followed by a binary operator
+    followed_by_op: bool,
+}
+
+const SHORT: &[&str] = &["a", "b", "x", "y", "f", "g", "n", "v", "it", "s", "foo", "bar", "baz", "tmp"];
+const LONG: &[&str] = &[
+    "value_of_interest",
+    "configuration_entry",
+    "an_exceedingly_long_identifier_name",
+    "another_quite_long_function_name_here",
+    "accumulated_result_so_far",
+    "intermediate_representation",
+    "xxxxxxxxxxxxxxxxxxxxxxxxxxxxxxxxxxxxxxxxxxxxxxxx",
+    "process_incoming_request_batch",
+];
+const ODD: &[&str] = &["r#type", "r#match", "größe", "данные", "名前", "_", "_unused", "x0", "X_1"];
+const TYPES: &[&str] = &["u8", "u32", "i64", "usize", "bool", "String", "Foo", "Bar", "T", "Self", "str", "f64"];
+const LONG_TYPES: &[&str] = &["SomeVeryLongTypeNameForTesting", "AnotherLongishTypeName", "Configuration", "RequestHandler"];
+const TRAITS: &[&str] = &["Clone", "Debug", "Send", "Sync", "Iterator", "Display", "Default", "SomeLongTraitNameForBounds"];
+const LIFETIMES: &[&str] = &["'a", "'b", "'static", "'_", "'long_lifetime_name"];
+const INTS: &[&str] = &["0", "1", "42", "0xff", "0xDEAD_beef", "0o17", "0b1010_0101", "1_000_000", "7u8", "255usize", "0x1Fi64", "123456789012345"];
+const FLOATS: &[&str] = &["1.0", "0.5", "1e10", "2.5e-3", "1.0f32", "3.14159_26535", "1.", "10f64", "6.02E23"];
+const STRS: &[&str] = &[
+    "\"\"",
+    "\"hello\"",
+    "\"a somewhat longer string literal with several words in it\"",
+    "\"esc \\n \\t \\\\ \\\" \\u{1F980} \\x41\"",
+    "\"naïve ünïcödé 日本語\"",
+    "r\"raw\"",
+    "r#\"raw \" hash\"#",
+    "b\"bytes\\x00\"",
+    "br\"raw bytes\"",
+    "\"line one \\\n        continued\"",
+    "\"{} {:?} {name}\"",
+];
+const CHARS: &[&str] = &["'a'", "'\\n'", "'\\''", "'\\u{7f}'", "'é'", "b'x'", "b'\\\\'", "'\"'"];
+const BINOPS: &[&str] = &["+", "-", "*", "/", "%", "&&", "||", "&", "|", "^", "<<", ">>"];
+const CMPOPS: &[&str] = &["==", "!=", "<", ">", "<=", ">="];
+const ASSIGNOPS: &[&str] = &["=", "+=", "-=", "*=", "/=", "%=", "&=", "|=", "^=", "<<=", ">>="];
+const ABIS: &[&str] = &["\"C\"", "\"Rust\"", "\"system\"", "\"stdcall\""];
+const MACROS: &[&str] = &["println", "vec", "format", "assert_eq", "my_macro", "write", "matches", "debug_assert", "a_long_macro_name_for_breaking"];
+
+impl<'a, 'b> G<'a, 'b> {
+    fn t(&mut self, s: &str) {
+        self.budget -= 1;
+        self.p.push(Piece::Tok(s.to_owned()));
+    }
+    fn ts(&mut self, ss: &[&str]) {
+        for s in ss {
+            self.t(s);
+        }
+    }
+    fn slot(&mut self, k: SlotKind) {
+        self.p.push(Piece::Slot(k));
+    }
+    fn tag(&mut self, t: &'static str) {
+        if !self.tags.contains(&t) {
+            self.tags.push(t);
+        }
+    }
+    fn need(&mut self, ed: &'static str) {
+        if ed > self.min_edition {
+            self.min_edition = ed;
+        }
+    }
+    /// async/await need edition >= 2018; programs using `try!` only parse under 2015
+    fn modern(&mut self) -> bool {
+        if self.only_2015 {
+            return false;
+        }
+        self.need("2018");
+        true
+    }
+    fn start(&mut self, k: NodeKind) -> usize {
+        let id = self.next_node;
+        self.next_node += 1;
+        self.p.push(Piece::NodeStart(k, id, self.in_fn > 0));
+        id
+    }
+    fn end(&mut self, id: usize) {
+        self.p.push(Piece::NodeEnd(id));
+    }
+    fn small(&self) -> bool {
+        self.budget <= 0
+    }
+    fn arity(&mut self, min: usize) -> usize {
+        if self.small() {
+            return min;
+        }
+        let m = self.max_arity;
+        min + self.c.weighted(&[3, 4, 3, 2, 1, 1]).min(m.saturating_sub(min))
+    }
+
+    fn ident(&mut self) -> String {
+        match self.c.weighted(&[6, 3, 1]) {
+            0 => (*self.c.pick(SHORT)).to_string(),
+            1 => (*self.c.pick(LONG)).to_string(),
+            _ => {
+                let s = *self.c.pick(ODD);
+                if s == "_" {
+                    "_x".to_string()
+                } else {
+                    if !s.is_ascii() {
+                        self.tag("non-ascii-ident");
+                    }
+                    s.to_string()
+                }
+            }
+        }
+    }
+    fn type_name(&mut self) -> String {
+        match self.c.weighted(&[5, 2]) {
+            0 => (*self.c.pick(TYPES)).to_string(),
+            _ => (*self.c.pick(LONG_TYPES)).to_string(),
+        }
+    }
+    fn upper_ident(&mut self) -> String {
+        (*self
+            .c
+            .pick(&["Foo", "Bar", "Baz", "Alpha", "SomeVeryLongTypeNameForTesting", "Wrapper", "Node", "Übung"]))
+        .to_string()
+    }
+
+    // ---- types ------------------------------------------------------------------------------
+    fn ty(&mut self, d: usize) {
+        if d == 0 || self.small() {
+            let n = self.type_name();
+            self.t(&n);
+            return;
+        }
+        match self.c.weighted(&[8, 4, 3, 2, 2, 2, 2, 1, 1, 1, 1]) {
+            0 => {
+                let n = self.type_name();
+                self.t(&n);
+            }
+            1 => {
+                // generic path
+                self.tag("generic-type");
+                let n = *self.c.pick(&["Vec", "Option", "Result", "HashMap", "Box", "std::collections::BTreeMap", "Rc"]);
+                for (i, seg) in n.split("::").enumerate() {
+                    if i > 0 {
+                        self.t("::");
+                    }
+                    self.t(seg);
+                }
+                self.t("<");
+                let k = 1 + self.c.below(2);
+                for i in 0..k {
+                    if i > 0 {
+                        self.t(",");
+                    }
+                    if self.c.chance(1, 8) {
+                        let l = *self.c.pick(LIFETIMES);
+                        self.t(l);
+                    } else {
+                        self.ty(d - 1);
+                    }
+                }
+                if self.c.chance(1, 8) {
+                    self.t(",");
+                }
+                self.t(">");
+            }
+            2 => {
+                self.t("&");
+                if self.c.chance(1, 3) {
+                    let l = *self.c.pick(LIFETIMES);
+                    self.t(l);
+                }
+                if self.c.chance(1, 3) {
+                    self.t("mut");
+                }
+                self.ty(d - 1);
+            }
+            3 => {
+                self.tag("tuple-type");
+                self.t("(");
+                let k = self.c.below(4);
+                for i in 0..k {
+                    if i > 0 {
+                        self.t(",");
+                    }
+                    self.ty(d - 1);
+                }
+                if k == 1 {
+                    self.t(",");
+                }
+                self.t(")");
+            }
+            4 => {
+                self.t("[");
+                self.ty(d - 1);
+                if self.c.flip() {
+                    self.t(";");
+                    let n = *self.c.pick(&["4", "N", "LEN + 1", "32"]);
+                    for w in n.split(' ') {
+                        self.t(w);
+                    }
+                }
+                self.t("]");
+            }
+            5 => {
+                self.t("*");
+                let m = *self.c.pick(&["const", "mut"]);
+                self.t(m);
+                self.ty(d - 1);
+            }
+            6 => {
+                // fn pointer
+                self.tag("fn-pointer-type");
+                if self.c.chance(1, 4) {
+                    self.ts(&["for", "<", "'a", ">"]);
+                }
+                if self.c.chance(1, 4) {
+                    self.t("unsafe");
+                }
+                if self.c.chance(1, 4) {
+                    self.t("extern");
+                    if self.c.flip() {
+                        let a = *self.c.pick(ABIS);
+                        self.t(a);
+                    }
+                }
+                self.t("fn");
+                self.t("(");
+                let k = self.c.below(4);
+                for i in 0..k {
+                    if i > 0 {
+                        self.t(",");
+                    }
+                    if self.c.chance(1, 4) {
+                        let n = self.ident();
+                        self.t(&n);
+                        self.t(":");
+                    }
+                    self.ty(d - 1);
+                }
+                self.t(")");
+                if self.c.flip() {
+                    self.t("->");
+                    self.ty(d - 1);
+                }
+            }
+            7 => {
+                self.tag("dyn-type");
+                if self.c.flip() {
+                    self.t("Box");
+                    self.t("<");
+                    self.dyn_or_impl("dyn");
+                    self.t(">");
+                } else {
+                    self.t("&");
+                    self.t("(");
+                    self.dyn_or_impl("dyn");
+                    self.t(")");
+                }
+            }
+            8 => {
+                self.t("!");
+            }
+            9 => {
+                self.t("(");
+                self.ty(d - 1);
+                self.t(")");
+                self.tag("paren-type");
+            }
+            _ => {
+                // qualified path
+                self.ts(&["<"]);
+                self.ty(d - 1);
+                self.ts(&["as", "Iterator", ">", "::", "Item"]);
+            }
+        }
+    }
+    fn dyn_or_impl(&mut self, kw: &str) {
+        self.t(kw);
+        let k = 1 + self.c.below(3);
+        for i in 0..k {
+            if i > 0 {
+                self.t("+");
+            }
+            if i > 0 && self.c.chance(1, 4) {
+                let l = *self.c.pick(&["'a", "'static"]);
+                self.t(l);
+            } else {
+                let tr = *self.c.pick(TRAITS);
+                self.t(tr);
+            }
+        }
+    }
+    fn bounds(&mut self) {
+        let k = 1 + self.c.below(3);
+        for i in 0..k {
+            if i > 0 {
+                self.t("+");
+            }
+            match self.c.weighted(&[6, 1, 1, 1]) {
+                0 => {
+                    let tr = *self.c.pick(TRAITS);
+                    self.t(tr);
+                }
+                1 => {
+                    self.ts(&["?", "Sized"]);
+                }
+                2 => {
+                    let l = *self.c.pick(&["'a", "'static"]);
+                    self.t(l);
+                }
+                _ => {
+                    self.ts(&["for", "<", "'x", ">", "Fn", "(", "&", "'x", "u8", ")", "->", "bool"]);
+                    self.tag("hrtb");
+                }
+            }
+        }
+    }
+    fn generics(&mut self, d: usize) -> bool {
+        // returns whether a where clause should follow
+        match self.c.weighted(&[5, 4, 1]) {
+            0 => false,
+            2 => {
+                self.ts(&["<", ">"]);
+                self.tag("empty-generics");
+                false
+            }
+            _ => {
+                self.tag("generics");
+                self.t("<");
+                let k = self.arity(1);
+                for i in 0..k {
+                    if i > 0 {
+                        self.t(",");
+                    }
+                    match self.c.weighted(&[2, 6, 1]) {
+                        0 => {
+                            let l = *self.c.pick(&["'a", "'b", "'c"]);
+                            self.t(l);
+                            if self.c.chance(1, 4) {
+                                self.ts(&[":", "'static"]);
+                            }
+                        }
+                        1 => {
+                            let n = *self.c.pick(&["T", "U", "V", "LongTypeParameterName", "F"]);
+                            self.t(n);
+                            if self.c.chance(1, 2) {
+                                self.t(":");
+                                if self.c.chance(1, 10) {
+                                    self.tag("empty-bounds");
+                                } else {
+                                    self.bounds();
+                                }
+                            }
+                            if self.c.chance(1, 6) {
+                                self.t("=");
+                                self.ty(d.min(1));
+                            }
+                        }
+                        _ => {
+                            self.ts(&["const", "N", ":", "usize"]);
+                            if self.c.chance(1, 3) {
+                                self.ts(&["=", "3"]);
+                            }
+                        }
+                    }
+                }
+                if self.c.chance(1, 8) {
+                    self.t(",");
+                }
+                self.t(">");
+                self.c.chance(1, 3)
+            }
+        }
+    }
+    fn where_clause(&mut self, d: usize) {
+        self.t("where");
+        if self.c.chance(1, 10) {
+            self.tag("empty-where");
+            return;
+        }
+        self.tag("where-clause");
+        let k = self.arity(1);
+        for i in 0..k {
+            if i > 0 {
+                self.t(",");
+            }
+            if self.c.chance(1, 6) {
+                self.ts(&["'a", ":", "'b"]);
+            } else {
+                if self.c.chance(1, 6) {
+                    self.ts(&["for", "<", "'x", ">"]);
+                }
+                self.ty(d.min(1));
+                self.t(":");
+                self.bounds();
+            }
+        }
+        if self.c.chance(1, 3) {
+            self.t(",");
+        }
+    }
+
+    // ---- patterns ---------------------------------------------------------------------------
+    fn pat(&mut self, d: usize) {
+        if d == 0 || self.small() {
+            let n = self.ident();
+            self.t(&n);
+            return;
+        }
+        match self.c.weighted(&[6, 2, 3, 3, 2, 2, 1, 1, 1, 1]) {
+            0 => {
+                if self.c.chance(1, 5) {
+                    self.t("ref");
+                }
+                if self.c.chance(1, 5) {
+                    self.t("mut");
+                }
+                let n = self.ident();
+                self.t(&n);
+                if self.c.chance(1, 10) {
+                    self.t("@");
+                    self.pat(d - 1);
+                }
+            }
+            1 => self.t("_"),
+            2 => {
+                // tuple struct
+                let n = *self.c.pick(&["Some", "Ok", "Err", "Foo::Bar", "SomeVeryLongEnumName::VariantName"]);
+                for (i, seg) in n.split("::").enumerate() {
+                    if i > 0 {
+                        self.t("::");
+                    }
+                    self.t(seg);
+                }
+                self.t("(");
+                let k = 1 + self.c.below(3);
+                for i in 0..k {
+                    if i > 0 {
+                        self.t(",");
+                    }
+                    self.pat(d - 1);
+                }
+                self.t(")");
+            }
+            3 => {
+                self.t("(");
+                let k = self.c.below(4);
+                for i in 0..k {
+                    if i > 0 {
+                        self.t(",");
+                    }
+                    if self.c.chance(1, 5) {
+                        self.t("_");
+                    } else {
+                        self.pat(d - 1);
+                    }
+                }
+                if k == 1 {
+                    self.t(",");
+                }
+                self.t(")");
+            }
+            4 => {
+                // struct pattern
+                let n = self.upper_ident();
+                self.t(&n);
+                self.t("{");
+                let k = self.c.below(3);
+                for i in 0..k {
+                    if i > 0 {
+                        self.t(",");
+                    }
+                    let f = self.ident();
+                    self.t(&f);
+                    if self.c.flip() {
+                        self.t(":");
+                        self.pat(d - 1);
+                    }
+                }
+                if self.c.chance(1, 3) {
+                    if k > 0 {
+                        self.t(",");
+                    }
+                    self.t("..");
+                }
+                self.t("}");
+            }
+            5 => {
+                let l = self.literal_tok();
+                self.t(&l);
+            }
+            6 => {
+                let (a, b) = *self.c.pick(&[("0", "9"), ("'a'", "'z'"), ("1", "MAX")]);
+                self.t(a);
+                self.t("..=");
+                self.t(b);
+            }
+            7 => {
+                self.t("[");
+                let k = self.c.below(4);
+                for i in 0..k {
+                    if i > 0 {
+                        self.t(",");
+                    }
+                    if self.c.chance(1, 4) {
+                        self.t("..");
+                    } else {
+                        self.pat(d - 1);
+                    }
+                }
+                self.t("]");
+            }
+            8 => {
+                // (a range pattern directly under `&` is ambiguous)
+                self.t("&");
+                let n = self.ident();
+                self.t(&n);
+            }
+            _ => {
+                self.t("(");
+                self.pat(d - 1);
+                self.t("|");
+                self.pat(d - 1);
+                self.t(")");
+            }
+        }
+    }
+
+    // ---- expressions ------------------------------------------------------------------------
+    fn literal_tok(&mut self) -> String {
+        match self.c.weighted(&[5, 2, 3, 2, 1]) {
+            0 => (*self.c.pick(INTS)).to_string(),
+            1 => {
+                self.tag("float-literal");
+                (*self.c.pick(FLOATS)).to_string()
+            }
+            2 => {
+                self.tag("string-literal");
+                let s = *self.c.pick(STRS);
+                if s.contains("\\\n") {
+                    self.tag("string-continuation");
+                }
+                s.to_string()
+            }
+            3 => (*self.c.pick(CHARS)).to_string(),
+            _ => (*self.c.pick(&["true", "false"])).to_string(),
+        }
+    }
+    fn path_expr(&mut self) {
+        match self.c.weighted(&[6, 2, 1, 1]) {
+            0 => {
+                let n = self.ident();
+                self.t(&n);
+            }
+            1 => {
+                let n = *self.c.pick(&["Foo::new", "std::mem::swap", "self::helper", "crate::util::go", "super::x", "Vec::<u8>::new", "Self::CONST"]);
+                for (i, seg) in n.split("::").enumerate() {
+                    if i > 0 {
+                        self.t("::");
+                    }
+                    if let Some(inner) = seg.strip_prefix('<') {
+                        self.t("<");
+                        self.t(inner.trim_end_matches('>'));
+                        self.t(">");
+                    } else {
+                        self.t(seg);
+                    }
+                }
+            }
+            2 => self.t("self"),
+            _ => {
+                self.ts(&["<", "T", "as", "Default", ">", "::", "default"]);
+            }
+        }
+    }
+    fn args(&mut self, d: usize) {
+        let saved = std::mem::replace(&mut self.followed_by_op, false);
+        self.args_inner(d);
+        self.followed_by_op = saved;
+    }
+    fn args_inner(&mut self, d: usize) {
+        self.t("(");
+        let k = self.arity(0);
+        for i in 0..k {
+            self.slot(SlotKind::BetweenArgs);
+            self.expr(d.saturating_sub(1));
+            if i + 1 < k {
+                self.t(",");
+                self.slot(SlotKind::EndOfLine);
+            } else if self.c.chance(1, 6) {
+                self.t(",");
+            }
+        }
+        self.t(")");
+    }
+    fn block(&mut self, d: usize) {
+        let saved = std::mem::replace(&mut self.followed_by_op, false);
+        self.block_inner(d);
+        self.followed_by_op = saved;
+    }
+    fn block_inner(&mut self, d: usize) {
+        self.t("{");
+        let k = if d == 0 || self.small() { 0 } else { self.c.weighted(&[2, 4, 3, 2, 1]) };
+        for _ in 0..k {
+            self.slot(SlotKind::BetweenStmts);
+            self.stmt(d.saturating_sub(1));
+        }
+        self.slot(SlotKind::BetweenStmts);
+        if self.c.chance(2, 3) {
+            self.expr(d.saturating_sub(1));
+        }
+        self.t("}");
+    }
+    /// expression that is safe in `if`/`while`/`match` head position (no struct literal)
+    fn cond_expr(&mut self, d: usize) {
+        match self.c.weighted(&[4, 3, 2, 1]) {
+            0 => self.path_expr(),
+            1 => {
+                self.path_expr();
+                let op = *self.c.pick(CMPOPS);
+                self.t(op);
+                let l = self.literal_tok();
+                self.t(&l);
+            }
+            2 => {
+                self.path_expr();
+                self.t(".");
+                let m = self.ident();
+                self.t(&m);
+                self.args(d.min(1));
+            }
+            _ => {
+                self.t("(");
+                self.expr(d.saturating_sub(1));
+                self.t(")");
+                self.tag("paren-cond");
+            }
+        }
+    }
+    fn primary(&mut self, d: usize) {
+        if d == 0 || self.small() {
+            if self.c.flip() {
+                let l = self.literal_tok();
+                self.t(&l);
+            } else {
+                self.path_expr();
+            }
+            return;
+        }
+        let pick = self.c.weighted(&[6, 6, 5, 4, 2, 2, 2, 2, 2, 2, 2, 2, 1, 1, 1, 1, 1]);
+        // block-like expressions end a statement (or a match-arm body) when they come first, a
+        // closure body and a jump's operand extend to the right: parenthesise them when a
+        // binary operator follows
+        let wrap = self.followed_by_op && matches!(pick, 5 | 6 | 7 | 11 | 16);
+        let saved = self.followed_by_op;
+        if wrap {
+            self.t("(");
+            self.followed_by_op = false;
+        }
+        self.primary_pick(d, pick);
+        if wrap {
+            self.t(")");
+            self.followed_by_op = saved;
+        }
+    }
+    fn primary_pick(&mut self, d: usize, pick: usize) {
+        match pick {
+            0 => {
+                let l = self.literal_tok();
+                self.t(&l);
+            }
+            1 => self.path_expr(),
+            2 => {
+                // call
+                self.tag("call");
+                self.path_expr();
+                self.args(d);
+            }
+            3 => {
+                // method chain
+                self.tag("chain");
+                self.path_expr();
+                let k = 1 + self.c.weighted(&[3, 3, 2, 1, 1]);
+                for _ in 0..k {
+                    match self.c.weighted(&[6, 2, 1, 1, 1]) {
+                        0 => {
+                            self.t(".");
+                            let m = self.ident();
+                            self.t(&m);
+                            if self.c.chance(1, 8) {
+                                self.ts(&["::", "<"]);
+                                self.ty(1);
+                                self.t(">");
+                                self.tag("turbofish");
+                            }
+                            self.args(d);
+                        }
+                        1 => {
+                            self.t(".");
+                            let m = self.ident();
+                            self.t(&m);
+                        }
+                        2 => {
+                            self.t("?");
+                            self.tag("try-op");
+                        }
+                        3 => {
+                            if self.modern() {
+                                self.ts(&[".", "await"]);
+                                self.tag("await");
+                            } else {
+                                self.t("?");
+                            }
+                        }
+                        _ => {
+                            self.t(".");
+                            let i = *self.c.pick(&["0", "1", "0.0", "1.0"]);
+                            self.t(i);
+                            self.tag("tuple-index");
+                        }
+                    }
+                }
+            }
+            4 => {
+                // macro call
+                self.tag("macro-call");
+                let m = *self.c.pick(MACROS);
+                self.t(m);
+                self.t("!");
+                let (o, cl) = if m == "vec" {
+                    *self.c.pick(&[("[", "]"), ("(", ")"), ("[", "]")])
+                } else {
+                    ("(", ")")
+                };
+                if m == "vec" && o == "(" {
+                    self.tag("vec-paren");
+                }
+                self.t(o);
+                let k = self.arity(0);
+                for i in 0..k {
+                    if i > 0 {
+                        self.t(",");
+                    }
+                    if i == 0 && (m == "println" || m == "format" || m == "write") {
+                        if m == "write" {
+                            self.t("f");
+                            self.t(",");
+                        }
+                        self.t("\"{} {:?}\"");
+                    } else {
+                        self.expr(d - 1);
+                    }
+                }
+                if self.c.chance(1, 6) && k > 0 {
+                    self.t(",");
+                }
+                self.t(cl);
+            }
+            5 => {
+                // closure
+                self.tag("closure");
+                if self.c.chance(1, 8) && self.modern() {
+                    self.t("async");
+                }
+                if self.c.chance(1, 4) {
+                    self.t("move");
+                }
+                let k = self.c.below(3);
+                if k == 0 {
+                    self.t("||");
+                } else {
+                    self.t("|");
+                    for i in 0..k {
+                        if i > 0 {
+                            self.t(",");
+                        }
+                        self.pat(1);
+                        if self.c.chance(1, 4) {
+                            self.t(":");
+                            self.ty(1);
+                        }
+                    }
+                    self.t("|");
+                }
+                if self.c.chance(1, 6) {
+                    self.t("->");
+                    self.ty(1);
+                    self.block(d - 1);
+                } else if self.c.chance(1, 3) {
+                    self.block(d - 1);
+                    self.tag("closure-block-body");
+                } else {
+                    self.expr(d - 1);
+                }
+            }
+            6 => {
+                // if / else
+                self.tag("if");
+                self.t("if");
+                if self.c.chance(1, 5) {
+                    self.t("let");
+                    self.pat(d - 1);
+                    self.t("=");
+                    self.tag("if-let");
+                }
+                self.cond_expr(d - 1);
+                self.block(d - 1);
+                let k = self.c.weighted(&[3, 3, 1]);
+                if k >= 2 {
+                    self.ts(&["else", "if"]);
+                    self.cond_expr(d - 1);
+                    self.block(d - 1);
+                }
+                if k >= 1 {
+                    self.t("else");
+                    self.block(d - 1);
+                }
+            }
+            7 => {
+                // match
+                self.tag("match");
+                self.t("match");
+                self.cond_expr(d - 1);
+                self.t("{");
+                let k = self.arity(1);
+                for i in 0..k {
+                    self.slot(SlotKind::BetweenArms);
+                    let id = self.start(NodeKind::Arm);
+                    if self.c.chance(1, 8) {
+                        self.t("|");
+                        self.tag("leading-pipe");
+                    }
+                    let alts = 1 + self.c.weighted(&[6, 2, 1]);
+                    for j in 0..alts {
+                        if j > 0 {
+                            self.t("|");
+                        }
+                        self.pat(d - 1);
+                    }
+                    if self.c.chance(1, 6) {
+                        self.t("if");
+                        self.cond_expr(d - 1);
+                        self.tag("match-guard");
+                    }
+                    self.t("=>");
+                    let blockbody = self.c.chance(1, 3);
+                    if blockbody {
+                        self.block(d - 1);
+                        self.tag("arm-block-body");
+                    } else {
+                        self.expr(d - 1);
+                    }
+                    self.end(id);
+                    if i + 1 < k {
+                        if !blockbody || self.c.chance(1, 3) {
+                            self.t(",");
+                            self.slot(SlotKind::EndOfLine);
+                        }
+                    } else if self.c.flip() {
+                        self.t(",");
+                    }
+                }
+                self.t("}");
+            }
+            8 => {
+                // struct literal
+                self.tag("struct-literal");
+                let n = self.upper_ident();
+                self.t(&n);
+                self.t("{");
+                let k = self.arity(0);
+                for i in 0..k {
+                    if i > 0 {
+                        self.t(",");
+                    }
+                    let f = self.ident();
+                    self.t(&f);
+                    match self.c.weighted(&[5, 2, 1]) {
+                        0 => {
+                            self.t(":");
+                            self.expr(d - 1);
+                        }
+                        1 => {
+                            self.tag("field-shorthand");
+                        }
+                        _ => {
+                            self.t(":");
+                            self.t(&f);
+                            self.tag("field-init-redundant");
+                        }
+                    }
+                }
+                if self.c.chance(1, 5) {
+                    if k > 0 {
+                        self.t(",");
+                    }
+                    self.t("..");
+                    self.path_expr();
+                    self.tag("struct-base");
+                } else if k > 0 && self.c.chance(1, 4) {
+                    self.t(",");
+                }
+                self.t("}");
+            }
+            9 => {
+                // array / repeat
+                self.tag("array");
+                self.t("[");
+                if self.c.chance(1, 5) {
+                    self.expr(d - 1);
+                    self.t(";");
+                    self.t("16");
+                } else {
+                    let k = self.arity(0);
+                    for i in 0..k {
+                        if i > 0 {
+                            self.t(",");
+                        }
+                        self.expr(d - 1);
+                    }
+                    if k > 0 && self.c.chance(1, 5) {
+                        self.t(",");
+                    }
+                }
+                self.t("]");
+            }
+            10 => {
+                // tuple / paren
+                self.t("(");
+                let k = self.c.below(4);
+                for i in 0..k {
+                    if i > 0 {
+                        self.t(",");
+                    }
+                    self.expr(d - 1);
+                }
+                if k == 1 {
+                    if self.c.flip() {
+                        self.t(",");
+                    } else {
+                        self.tag("paren-expr");
+                    }
+                }
+                self.t(")");
+            }
+            11 => {
+                // blocks
+                let mut kw = *self.c.pick(&["", "unsafe", "async", "async move", "const", "'label:", "loop"]);
+                if kw.starts_with("async") && !self.modern() {
+                    kw = "unsafe";
+                }
+                if kw == "'label:" {
+                    self.ts(&["'label", ":"]);
+                } else {
+                    for w in kw.split(' ').filter(|w| !w.is_empty()) {
+                        self.t(w);
+                    }
+                }
+                self.tag("block-expr");
+                self.block(d - 1);
+            }
+            12 => {
+                // nested parens
+                self.ts(&["(", "("]);
+                self.expr(d - 1);
+                self.ts(&[")", ")"]);
+                self.tag("nested-parens");
+            }
+            13 => {
+                // index
+                self.path_expr();
+                self.t("[");
+                self.expr(d - 1);
+                self.t("]");
+            }
+            14 => {
+                // try! macro (`try` is a keyword from 2018 on)
+                if self.only_2015 {
+                    self.ts(&["try", "!", "("]);
+                    self.expr(d - 1);
+                    self.t(")");
+                    self.tag("try-macro");
+                } else {
+                    self.path_expr();
+                    self.t("?");
+                    self.tag("try-op");
+                }
+            }
+            15 => {
+                // range
+                self.tag("range");
+                let l = self.literal_tok();
+                match self.c.below(4) {
+                    0 => {
+                        self.t("(");
+                        self.t("0");
+                        self.t("..");
+                        self.t(&l);
+                        self.t(")");
+                    }
+                    1 => {
+                        self.t("(");
+                        self.t("..=");
+                        self.t("9");
+                        self.t(")");
+                    }
+                    2 => {
+                        self.t("(");
+                        self.path_expr();
+                        self.t("..");
+                        self.t(")");
+                    }
+                    _ => {
+                        self.t("(");
+                        self.t("1");
+                        self.t("..=");
+                        self.path_expr();
+                        self.t(")");
+                    }
+                }
+            }
+            _ => {
+                // jumps
+                match self.c.below(4) {
+                    0 => {
+                        self.t("return");
+                        if self.c.flip() {
+                            self.primary(d - 1);
+                        }
+                    }
+                    1 => {
+                        self.t("break");
+                    }
+                    2 => self.t("continue"),
+                    _ => {
+                        self.ts(&["break", "'outer"]);
+                    }
+                }
+                self.tag("jump");
+            }
+        }
+    }
+    fn unary(&mut self, d: usize) {
+        match self.c.weighted(&[12, 1, 1, 1, 1, 1, 1]) {
+            0 => self.primary(d),
+            1 => {
+                self.t("!");
+                self.primary(d);
+            }
+            2 => {
+                self.t("-");
+                self.primary(d);
+            }
+            3 => {
+                self.t("*");
+                self.primary(d);
+            }
+            4 => {
+                self.t("&");
+                if self.c.flip() {
+                    self.t("mut");
+                }
+                self.primary(d);
+            }
+            5 => {
+                self.t("(");
+                if self.c.flip() {
+                    self.path_expr();
+                } else {
+                    let l = self.literal_tok();
+                    self.t(&l);
+                }
+                self.t("as");
+                self.ty(1);
+                self.t(")");
+                self.tag("cast");
+            }
+            _ => {
+                self.t("&");
+                self.t("raw");
+                let m = *self.c.pick(&["const", "mut"]);
+                self.t(m);
+                self.path_expr();
+                self.tag("raw-ref");
+            }
+        }
+    }
+    fn expr(&mut self, d: usize) {
+        let k = if d == 0 || self.small() { 0 } else { self.c.weighted(&[8, 3, 2, 1, 1]) };
+        // attributes on the left operand of a binary expression are ambiguous: mark only
+        // operator-free expressions as attribute-accepting nodes
+        let id = if k == 0 && d > 0 && self.c.chance(1, 8) { Some(self.start(NodeKind::Expr)) } else { None };
+        let saved = self.followed_by_op;
+        self.followed_by_op = k > 0;
+        if id.is_some() {
+            self.primary(d);
+        } else {
+            self.unary(d);
+        }
+        if k > 0 {
+            self.tag("binary");
+        }
+        let mut used_cmp = false;
+        for i in 0..k {
+            let op = if !used_cmp && self.c.chance(1, 5) {
+                used_cmp = true;
+                *self.c.pick(CMPOPS)
+            } else {
+                *self.c.pick(BINOPS)
+            };
+            self.t(op);
+            self.followed_by_op = i + 1 < k;
+            self.unary(d.saturating_sub(1));
+        }
+        self.followed_by_op = saved;
+        if let Some(id) = id {
+            self.end(id);
+        }
+    }
+
+    // ---- statements -------------------------------------------------------------------------
+    fn stmt(&mut self, d: usize) {
+        match self.c.weighted(&[6, 6, 2, 1, 1, 1]) {
+            0 => {
+                let id = self.start(NodeKind::LetStmt);
+                self.t("let");
+                self.pat(d.min(2));
+                if self.c.chance(1, 3) {
+                    self.t(":");
+                    self.ty(d.min(2));
+                }
+                if self.c.chance(5, 6) {
+                    self.t("=");
+                    if self.c.chance(1, 10) {
+                        // let-else: the initialiser may not end in `}` nor be a lazy boolean
+                        self.t("(");
+                        self.expr(d);
+                        self.t(")");
+                        self.t("else");
+                        self.t("{");
+                        self.t("return");
+                        self.t("}");
+                        self.tag("let-else");
+                    } else {
+                        self.expr(d);
+                    }
+                }
+                self.t(";");
+                self.end(id);
+                self.slot(SlotKind::EndOfLine);
+            }
+            1 => {
+                let id = self.start(NodeKind::ExprStmt);
+                // expression statements: calls, chains, assignments, control flow
+                match self.c.weighted(&[4, 3, 2]) {
+                    0 => {
+                        self.path_expr();
+                        let op = *self.c.pick(ASSIGNOPS);
+                        self.t(op);
+                        self.expr(d);
+                        self.t(";");
+                    }
+                    1 => {
+                        self.path_expr();
+                        self.t(".");
+                        let m = self.ident();
+                        self.t(&m);
+                        self.args(d);
+                        self.t(";");
+                    }
+                    _ => {
+                        // control-flow statement
+                        match self.c.below(4) {
+                            0 => {
+                                self.t("for");
+                                self.pat(1);
+                                self.t("in");
+                                self.cond_expr(d);
+                                self.block(d);
+                                self.tag("for");
+                            }
+                            1 => {
+                                self.t("while");
+                                self.cond_expr(d);
+                                self.block(d);
+                                self.tag("while");
+                            }
+                            2 => {
+                                self.ts(&["'outer", ":", "loop"]);
+                                self.block(d);
+                                self.tag("labelled-loop");
+                            }
+                            _ => {
+                                self.t("if");
+                                self.cond_expr(d);
+                                self.block(d);
+                                if self.c.flip() {
+                                    self.t("else");
+                                    self.block(d);
+                                }
+                            }
+                        }
+                    }
+                }
+                self.end(id);
+                self.slot(SlotKind::EndOfLine);
+            }
+            2 => {
+                let id = self.start(NodeKind::MacStmt);
+                let m = *self.c.pick(MACROS);
+                self.t(m);
+                self.t("!");
+                self.t("(");
+                self.t("\"{}\"");
+                let k = self.c.below(3);
+                for _ in 0..k {
+                    self.t(",");
+                    self.expr(d.min(1));
+                }
+                self.t(")");
+                self.t(";");
+                self.end(id);
+                self.tag("macro-stmt");
+            }
+            3 => {
+                self.t(";");
+                self.tag("empty-stmt");
+            }
+            4 => {
+                // nested item
+                let id = self.start(NodeKind::NestedItem);
+                self.item_inner(d.min(1), false);
+                self.end(id);
+                self.tag("nested-item");
+            }
+            _ => {
+                let id = self.start(NodeKind::ExprStmt);
+                self.t("return");
+                if self.c.flip() {
+                    self.expr(d);
+                }
+                self.t(";");
+                self.end(id);
+            }
+        }
+    }
+
+    // ---- items ------------------------------------------------------------------------------
+    fn vis(&mut self) {
+        match self.c.weighted(&[8, 5, 2, 1, 1, 1]) {
+            0 => {}
+            1 => self.t("pub"),
+            2 => {
+                self.ts(&["pub", "(", "crate", ")"]);
+            }
+            3 => self.ts(&["pub", "(", "super", ")"]),
+            4 => {
+                self.ts(&["pub", "(", "in", "crate", "::", "a", ")"]);
+                self.tag("pub-in-path");
+            }
+            _ => {
+                self.ts(&["pub", "(", "in", "super", ")"]);
+                self.tag("pub-in-shorthandable");
+            }
+        }
+    }
+    fn attrs(&mut self) {
+        let k = self.c.weighted(&[8, 3, 1]);
+        for _ in 0..k {
+            match self.c.weighted(&[3, 3, 2, 2, 1, 1]) {
+                0 => {
+                    self.ts(&["#", "[", "derive", "("]);
+                    let n = self.c.below(4);
+                    for i in 0..n {
+                        if i > 0 {
+                            self.t(",");
+                        }
+                        let tr = *self.c.pick(&["Clone", "Debug", "PartialEq", "Eq", "Hash", "serde::Serialize", "Default"]);
+                        for (j, seg) in tr.split("::").enumerate() {
+                            if j > 0 {
+                                self.t("::");
+                            }
+                            self.t(seg);
+                        }
+                    }
+                    self.ts(&[")", "]"]);
+                    self.tag("derive");
+                }
+                1 => {
+                    let a = *self.c.pick(&["inline", "test", "must_use", "non_exhaustive", "cold"]);
+                    self.ts(&["#", "[", a, "]"]);
+                }
+                2 => {
+                    self.ts(&["#", "[", "cfg", "(", "feature", "=", "\"some-feature\"", ")", "]"]);
+                }
+                3 => {
+                    self.ts(&["#", "[", "allow", "(", "dead_code", ",", "unused_variables", ")", "]"]);
+                }
+                4 => {
+                    self.ts(&["#", "[", "doc", "=", "\"documented via attribute\"", "]"]);
+                    self.tag("doc-attr");
+                }
+                _ => {
+                    self.ts(&["#", "[", "cfg_attr", "(", "test", ",", "derive", "(", "Debug", ")", ")", "]"]);
+                }
+            }
+        }
+        if self.c.chance(1, 6) {
+            let n = 1 + self.c.below(3);
+            for i in 0..n {
+                let s = *self.c.pick(&["/// A documented item.", "/// Second line of documentation with `code`.", "///   indented doc text", "///", "/// Ünïcode docs 日本"]);
+                let _ = i;
+                self.t(s);
+            }
+            self.tag("doc-comment");
+        }
+    }
+    fn fn_sig(&mut self, d: usize, allow_self: bool, simple_params: bool) {
+        // qualifiers
+        if self.c.chance(1, 8) {
+            self.t("const");
+        }
+        if self.c.chance(1, 8) && self.modern() {
+            self.t("async");
+            self.tag("async-fn");
+        }
+        if self.c.chance(1, 8) {
+            self.t("unsafe");
+            self.tag("unsafe-fn");
+        }
+        if self.c.chance(1, 10) {
+            self.t("extern");
+            if self.c.chance(2, 3) {
+                let a = *self.c.pick(ABIS);
+                self.t(a);
+                if a != "\"C\"" {
+                    self.tag("non-c-abi");
+                }
+            } else {
+                self.tag("implicit-abi");
+            }
+        }
+        self.t("fn");
+        let n = self.ident();
+        self.t(&n);
+        let wh = self.generics(d);
+        self.t("(");
+        let k = self.arity(0);
+        let mut first = true;
+        if allow_self && self.c.chance(2, 3) {
+            let s = *self.c.pick(&["self", "&self", "&mut self", "mut self", "self: Box<Self>", "&'a self"]);
+            self.slot(SlotKind::BetweenParams);
+            for w in tokenize_simple(s) {
+                self.t(&w);
+            }
+            first = false;
+        }
+        for _ in 0..k {
+            if !first {
+                self.t(",");
+                self.slot(SlotKind::EndOfLine);
+            }
+            first = false;
+            self.slot(SlotKind::BetweenParams);
+            if self.c.chance(1, 10) {
+                self.ts(&["#", "[", "cfg", "(", "test", ")", "]"]);
+            }
+            if simple_params {
+                let n = self.ident();
+                self.t(&n);
+            } else {
+                self.pat(1);
+            }
+            self.t(":");
+            self.ty(d.min(2));
+        }
+        if !first && self.c.chance(1, 5) {
+            self.t(",");
+        }
+        self.t(")");
+        match self.c.weighted(&[4, 5, 1]) {
+            0 => {}
+            1 => {
+                self.t("->");
+                if self.c.chance(1, 6) {
+                    self.dyn_or_impl("impl");
+                    self.tag("impl-trait-return");
+                } else {
+                    self.ty(d.min(2));
+                }
+            }
+            _ => {
+                self.ts(&["->", "(", ")"]);
+                self.tag("unit-return");
+            }
+        }
+        if wh {
+            self.where_clause(d);
+        }
+    }
+    fn item_inner(&mut self, d: usize, top: bool) {
+        self.attrs();
+        let pick = self.c.weighted(&[10, 5, 4, 3, 4, 2, 2, 2, 2, 2, 2, 1, 1, 1]);
+        match pick {
+            0 => {
+                self.tag("fn");
+                self.vis();
+                self.fn_sig(d, false, false);
+                self.in_fn += 1;
+                self.block(d);
+                self.in_fn -= 1;
+            }
+            1 => {
+                self.tag("struct");
+                self.vis();
+                self.t("struct");
+                let n = self.upper_ident();
+                self.t(&n);
+                let wh = self.generics(d);
+                match self.c.weighted(&[6, 3, 1]) {
+                    0 => {
+                        if wh {
+                            self.where_clause(d);
+                        }
+                        self.t("{");
+                        let k = self.arity(0);
+                        for i in 0..k {
+                            self.slot(SlotKind::BetweenFields);
+                            let id = self.start(NodeKind::Field);
+                            self.attrs_light();
+                            self.vis();
+                            let f = self.ident();
+                            self.t(&f);
+                            self.t(":");
+                            self.ty(d.min(2));
+                            self.end(id);
+                            if i + 1 < k || self.c.flip() {
+                                self.t(",");
+                                self.slot(SlotKind::EndOfLine);
+                            }
+                        }
+                        self.slot(SlotKind::BetweenFields);
+                        self.t("}");
+                    }
+                    1 => {
+                        self.t("(");
+                        let k = self.arity(0);
+                        for i in 0..k {
+                            if i > 0 {
+                                self.t(",");
+                            }
+                            self.vis();
+                            self.ty(d.min(2));
+                        }
+                        self.t(")");
+                        if wh {
+                            self.where_clause(d);
+                        }
+                        self.t(";");
+                        self.tag("tuple-struct");
+                    }
+                    _ => {
+                        self.t(";");
+                    }
+                }
+            }
+            2 => {
+                self.tag("enum");
+                self.vis();
+                self.t("enum");
+                let n = self.upper_ident();
+                self.t(&n);
+                let wh = self.generics(d);
+                if wh {
+                    self.where_clause(d);
+                }
+                self.t("{");
+                let k = self.arity(0);
+                for i in 0..k {
+                    self.slot(SlotKind::BetweenVariants);
+                    let id = self.start(NodeKind::Variant);
+                    self.attrs_light();
+                    let v = self.upper_ident();
+                    self.t(&v);
+                    match self.c.weighted(&[4, 2, 2, 1]) {
+                        0 => {}
+                        1 => {
+                            self.t("(");
+                            let m = 1 + self.c.below(3);
+                            for j in 0..m {
+                                if j > 0 {
+                                    self.t(",");
+                                }
+                                self.ty(d.min(1));
+                            }
+                            self.t(")");
+                        }
+                        2 => {
+                            self.t("{");
+                            let m = 1 + self.c.below(3);
+                            for j in 0..m {
+                                if j > 0 {
+                                    self.t(",");
+                                }
+                                let f = self.ident();
+                                self.t(&f);
+                                self.t(":");
+                                self.ty(d.min(1));
+                            }
+                            self.t("}");
+                        }
+                        _ => {
+                            self.t("=");
+                            let l = *self.c.pick(&["1", "0x10", "1 << 3", "-1"]);
+                            for w in l.split(' ') {
+                                self.t(w);
+                            }
+                            self.tag("discriminant");
+                        }
+                    }
+                    self.end(id);
+                    if i + 1 < k || self.c.flip() {
+                        self.t(",");
+                        self.slot(SlotKind::EndOfLine);
+                    }
+                }
+                self.slot(SlotKind::BetweenVariants);
+                self.t("}");
+            }
+            3 => {
+                self.tag("trait");
+                self.vis();
+                if self.c.chance(1, 8) {
+                    self.t("unsafe");
+                }
+                self.t("trait");
+                let n = self.upper_ident();
+                self.t(&n);
+                let wh = self.generics(d);
+                if self.c.chance(1, 3) {
+                    self.t(":");
+                    if self.c.chance(1, 8) {
+                        self.tag("empty-supertraits");
+                    } else {
+                        self.bounds();
+                    }
+                }
+                if wh {
+                    self.where_clause(d);
+                }
+                self.t("{");
+                let k = self.arity(0);
+                for _ in 0..k {
+                    self.slot(SlotKind::BetweenItems);
+                    let id = self.start(NodeKind::AssocItem);
+                    self.attrs_light();
+                    match self.c.weighted(&[5, 2, 2]) {
+                        0 => {
+                            let bodiless = self.c.flip();
+                            // trait methods: patterns other than plain identifiers are a parse error (anonymous
+                            // parameter compatibility)
+                            self.fn_sig(d.min(2), true, true);
+                            if bodiless {
+                                self.t(";");
+                            } else {
+                                self.in_fn += 1;
+                                self.block(d.min(2));
+                                self.in_fn -= 1;
+                            }
+                        }
+                        1 => {
+                            self.t("type");
+                            let n = self.upper_ident();
+                            self.t(&n);
+                            if self.c.flip() {
+                                self.t(":");
+                                self.bounds();
+                            }
+                            self.t(";");
+                        }
+                        _ => {
+                            self.t("const");
+                            self.t("LIMIT");
+                            self.t(":");
+                            self.ty(1);
+                            if self.c.flip() {
+                                self.t("=");
+                                self.expr(1);
+                            }
+                            self.t(";");
+                        }
+                    }
+                    self.end(id);
+                }
+                self.slot(SlotKind::BetweenItems);
+                self.t("}");
+            }
+            4 => {
+                self.tag("impl");
+                if self.c.chance(1, 10) {
+                    self.t("unsafe");
+                }
+                self.t("impl");
+                let wh = self.generics(d);
+                if self.c.chance(1, 2) {
+                    if self.c.chance(1, 10) {
+                        self.t("!");
+                        self.tag("negative-impl");
+                    }
+                    let tr = *self.c.pick(TRAITS);
+                    self.t(tr);
+                    self.t("for");
+                }
+                self.ty(d.min(2));
+                if wh {
+                    self.where_clause(d);
+                }
+                self.t("{");
+                let k = self.arity(0);
+                for _ in 0..k {
+                    self.slot(SlotKind::BetweenItems);
+                    let id = self.start(NodeKind::AssocItem);
+                    self.attrs_light();
+                    match self.c.weighted(&[6, 1, 1]) {
+                        0 => {
+                            self.vis();
+                            if self.c.chance(1, 12) {
+                                self.t("default");
+                            }
+                            self.fn_sig(d.min(2), true, false);
+                            self.in_fn += 1;
+                            self.block(d.min(2));
+                            self.in_fn -= 1;
+                        }
+                        1 => {
+                            self.t("type");
+                            let n = self.upper_ident();
+                            self.t(&n);
+                            self.t("=");
+                            self.ty(1);
+                            self.t(";");
+                        }
+                        _ => {
+                            self.vis();
+                            self.ts(&["const", "LIMIT", ":", "usize", "=", "10", ";"]);
+                        }
+                    }
+                    self.end(id);
+                }
+                self.slot(SlotKind::BetweenItems);
+                self.t("}");
+            }
+            5 => {
+                self.tag("type-alias");
+                self.vis();
+                self.t("type");
+                let n = self.upper_ident();
+                self.t(&n);
+                let _ = self.generics(d);
+                self.t("=");
+                self.ty(d.min(3));
+                self.t(";");
+            }
+            6 => {
+                self.tag("const-static");
+                self.vis();
+                if self.c.flip() {
+                    self.t("const");
+                } else {
+                    self.t("static");
+                    if self.c.chance(1, 3) {
+                        self.t("mut");
+                    }
+                }
+                let n = *self.c.pick(&["LIMIT", "A_RATHER_LONG_CONSTANT_NAME_FOR_WIDTH", "TABLE"]);
+                self.t(n);
+                self.t(":");
+                self.ty(d.min(2));
+                self.t("=");
+                self.expr(d.min(3));
+                self.t(";");
+            }
+            7 => {
+                self.tag("use");
+                self.vis();
+                self.t("use");
+                self.use_tree(2);
+                self.t(";");
+            }
+            8 => {
+                self.tag("extern-crate");
+                self.ts(&["extern", "crate"]);
+                let n = *self.c.pick(&["alpha", "beta", "serde_json", "zeta"]);
+                self.t(n);
+                if self.c.chance(1, 4) {
+                    self.ts(&["as", "renamed"]);
+                }
+                self.t(";");
+            }
+            9 => {
+                self.tag("mod-inline");
+                self.vis();
+                self.t("mod");
+                let n = *self.c.pick(&["inner", "tests", "a_module_with_long_name", "m"]);
+                self.t(n);
+                self.t("{");
+                let k = if d == 0 { 0 } else { self.c.below(3) };
+                for _ in 0..k {
+                    self.slot(SlotKind::BetweenItems);
+                    let id = self.start(NodeKind::NestedItem);
+                    self.item_inner(d.saturating_sub(1), false);
+                    self.end(id);
+                }
+                self.slot(SlotKind::BetweenItems);
+                self.t("}");
+            }
+            10 => {
+                self.tag("extern-block");
+                if self.c.chance(1, 4) {
+                    self.t("unsafe");
+                }
+                self.t("extern");
+                if self.c.chance(2, 3) {
+                    let a = *self.c.pick(ABIS);
+                    self.t(a);
+                    if a != "\"C\"" {
+                        self.tag("non-c-abi");
+                    }
+                } else {
+                    self.tag("implicit-abi");
+                }
+                self.t("{");
+                let k = self.arity(0);
+                for _ in 0..k {
+                    self.slot(SlotKind::BetweenItems);
+                    let id = self.start(NodeKind::ForeignItem);
+                    self.vis();
+                    if self.c.chance(2, 3) {
+                        self.t("fn");
+                        let n = self.ident();
+                        self.t(&n);
+                        self.t("(");
+                        let m = self.c.below(3);
+                        for j in 0..m {
+                            if j > 0 {
+                                self.t(",");
+                            }
+                            let p = self.ident();
+                            self.t(&p);
+                            self.t(":");
+                            self.ty(1);
+                        }
+                        if self.c.chance(1, 5) {
+                            if m > 0 {
+                                self.t(",");
+                                self.t("...");
+                                self.tag("variadic");
+                            }
+                        }
+                        self.t(")");
+                        if self.c.flip() {
+                            self.t("->");
+                            self.ty(1);
+                        }
+                        self.t(";");
+                    } else {
+                        self.t("static");
+                        if self.c.flip() {
+                            self.t("mut");
+                        }
+                        self.ts(&["ERRNO", ":", "i32", ";"]);
+                    }
+                    self.end(id);
+                }
+                self.t("}");
+            }
+            11 => {
+                self.tag("macro-rules");
+                self.ts(&["macro_rules", "!", "my_mac", "{"]);
+                let k = 1 + self.c.below(2);
+                for i in 0..k {
+                    self.t("(");
+                    if i == 0 {
+                        self.ts(&["$x", ":", "expr", ",", "$", "(", "$rest", ":", "tt", ")", "*"]);
+                    }
+                    self.t(")");
+                    self.t("=>");
+                    self.t("{");
+                    if self.c.flip() {
+                        self.ts(&["let", "v", "=", "$x", "+", "1", ";", "v"]);
+                    } else {
+                        self.ts(&["$x", ".", "call", "(", "$", "(", "$rest", ")", "*", ")"]);
+                    }
+                    self.t("}");
+                    if i + 1 < k || self.c.flip() {
+                        self.t(";");
+                    }
+                }
+                self.t("}");
+            }
+            12 => {
+                self.tag("item-macro");
+                let (o, cl, semi) = *self.c.pick(&[("(", ")", true), ("[", "]", true), ("{", "}", false)]);
+                self.ts(&["some_item_macro", "!", o]);
+                self.ts(&["struct", "Gen", ";", "impl", "Gen", "{", "}"]);
+                self.t(cl);
+                if semi {
+                    self.t(";");
+                }
+            }
+            _ => {
+                self.tag("union");
+                self.vis();
+                self.ts(&["union", "Bits", "{"]);
+                self.ts(&["i", ":", "u32", ",", "f", ":", "f32"]);
+                if self.c.flip() {
+                    self.t(",");
+                }
+                self.t("}");
+            }
+        }
+        let _ = top;
+    }
+    fn attrs_light(&mut self) {
+        if self.c.chance(1, 8) {
+            self.ts(&["#", "[", "cfg", "(", "test", ")", "]"]);
+        }
+        if self.c.chance(1, 12) {
+            self.t("/// documented member");
+        }
+    }
+    fn use_tree(&mut self, d: usize) {
+        let root = *self.c.pick(&["std", "crate", "self", "super", "alpha", "core", "zeta_crate"]);
+        self.t(root);
+        let k = 1 + self.c.below(3);
+        for _ in 0..k {
+            self.t("::");
+            let seg = *self.c.pick(&["io", "fmt", "collections", "mem", "inner_module", "Write", "HashMap", "a", "B"]);
+            self.t(seg);
+        }
+        match self.c.weighted(&[5, 2, 3, 1]) {
+            0 => {}
+            1 => {
+                self.ts(&["::", "*"]);
+            }
+            2 if d > 0 => {
+                self.ts(&["::", "{"]);
+                let n = self.arity(0);
+                for i in 0..n {
+                    if i > 0 {
+                        self.t(",");
+                    }
+                    match self.c.weighted(&[5, 1, 1, 1]) {
+                        0 => {
+                            let seg = *self.c.pick(&["Read", "Write", "self", "BufRead", "z", "A", "b_2", "b_10", "B1"]);
+                            self.t(seg);
+                        }
+                        1 => {
+                            self.ts(&["Seek", "as", "_"]);
+                        }
+                        2 => {
+                            self.ts(&["nested", "::", "{", "x", ",", "y", "}"]);
+                        }
+                        _ => self.t("*"),
+                    }
+                }
+                if n > 0 && self.c.chance(1, 5) {
+                    self.t(",");
+                }
+                self.t("}");
+            }
+            _ => {
+                self.ts(&["as", "Renamed"]);
+            }
+        }
+    }
+}
+
+/// Splits a small fixed snippet into tokens (only used for the `self` parameter spellings).
+fn tokenize_simple(s: &str) -> Vec<String> {
+    crate::lex::significant(s).iter().map(|t| t.text(s).to_owned()).collect()
+}
+
+pub struct ProgSpace {
+    pub max_depth: usize,
+    pub max_arity: usize,
+    pub max_items: usize,
+    pub budget: isize,
+}
+
+impl Default for ProgSpace {
+    fn default() -> Self {
+        ProgSpace {
+            max_depth: 4,
+            max_arity: 5,
+            max_items: 4,
+            budget: 350,
+        }
+    }
+}
+
+pub fn gen_prog(c: &mut Choices<'_>, space: &ProgSpace) -> Prog {
+    let only_2015 = c.chance(1, 10);
+    let mut g = G {
+        only_2015,
+        followed_by_op: false,
+        c,
+        p: vec![],
         tags: vec![],
+        next_node: 0,
+        min_edition: "2015",
+        max_depth: space.max_depth,
+        max_arity: space.max_arity,
+        in_fn: 0,
+        budget: space.budget,
+    };
+    if g.c.chance(1, 10) {
+        g.ts(&["#", "!", "[", "allow", "(", "unused", ")", "]"]);
+    }
+    let n = 1 + g.c.below(space.max_items.max(1));
+    for _ in 0..n {
+        g.slot(SlotKind::BetweenItems);
+        let id = g.start(NodeKind::Item);
+        let d = g.max_depth;
+        g.item_inner(d, true);
+        g.end(id);
+    }
+    g.slot(SlotKind::BetweenItems);
+    let min_edition = g.min_edition;
+    let mut tags = g.tags;
+    if only_2015 {
+        tags.push("only-2015");
+    }
+    Prog {
+        n_nodes: g.next_node,
+        pieces: g.p,
+        min_edition,
+        only_2015,
+        tags,
+    }
+}
+
+// ---------------------------------------------------------------------------------------------
+// rendering
+
+#[derive(Debug, Clone)]
+pub struct CommentInfo {
+    pub payload: String,
+    pub text: String,
+    pub block: bool,
+    pub slot: &'static str,
+    /// byte offset in the rendered text
+    pub at: usize,
+}
+
+#[derive(Debug, Clone)]
+pub struct NodeInfo {
+    pub id: usize,
+    pub kind: NodeKind,
+    pub in_fn: bool,
+    pub lo: usize,
+    pub hi: usize,
+}
+
+pub struct RenderOpts {
+    /// 0 = one space between tokens and a newline after `;`, `{`, `}`; 1..3 = increasingly wild
+    pub wild: usize,
+    /// probability (out of 16) that a comment slot receives a comment; 0 = no comments
+    pub comment_p: usize,
+    /// probability (out of 64) of a comment at an arbitrary token boundary inside a
+    /// function-body statement
+    pub in_stmt_p: usize,
+    /// node that must be rendered with a deliberately wild layout (C04), if any
+    pub wild_node: Option<usize>,
+    /// text inserted immediately before the first token of `wild_node` (e.g. a skip attribute)
+    pub node_prefix: String,
+}
+
+impl Default for RenderOpts {
+    fn default() -> Self {
+        RenderOpts {
+            wild: 0,
+            comment_p: 0,
+            in_stmt_p: 0,
+            wild_node: None,
+            node_prefix: String::new(),
+        }
+    }
+}
+
+pub struct Rendered {
+    pub text: String,
+    pub comments: Vec<CommentInfo>,
+    pub nodes: Vec<NodeInfo>,
+}
+
+fn is_word_char(c: char) -> bool {
+    c.is_alphanumeric() || c == '_' || !c.is_ascii()
+}
+
+/// Whether two adjacent tokens may be written without whitespace between them.
+fn may_glue(prev: &str, next: &str) -> bool {
+    if prev.starts_with("//") || next.starts_with("//") {
+        return false;
+    }
+    let a = prev.chars().last().unwrap_or(' ');
+    let b = next.chars().next().unwrap_or(' ');
+    let delim = |c: char| matches!(c, '(' | ')' | '[' | ']' | '{' | '}' | ',' | ';');
+    if !(delim(a) || delim(b)) {
+        return false;
+    }
+    a != '/' && b != '/'
+}
+
+const WS_WILD: &[&str] = &[" ", "\n", "  ", "\n\n", "\t", "\n      ", " \n", "\n\n\n", "    "];
+
+pub fn render(prog: &Prog, c: &mut Choices<'_>, ro: &RenderOpts) -> Rendered {
+    let mut text = String::new();
+    let mut comments: Vec<CommentInfo> = vec![];
+    let mut open: Vec<(usize, NodeKind, bool, usize)> = vec![];
+    let mut nodes: Vec<NodeInfo> = vec![];
+    let mut pending_start: Vec<(usize, NodeKind, bool)> = vec![];
+    let mut prev_tok: Option<String> = None;
+    let mut force_newline = false;
+    let mut stmt_depth = 0usize; // inside a fn-body statement
+    let mut wild_depth = 0usize; // inside the wild node
+    let mut nested_items = 0usize; // inside a nested item (no in-statement comments there)
+    let mut next_comment = 0usize;
+    let mut indent = 0usize;
+
+    let push_comment = |text: &mut String,
+                            comments: &mut Vec<CommentInfo>,
+                            c: &mut Choices<'_>,
+                            next_comment: &mut usize,
+                            slot: &'static str,
+                            force_newline: &mut bool| {
+        let payload = format!("c{}", *next_comment);
+        *next_comment += 1;
+        let block = c.chance(1, 3);
+        let words = *c.pick(&[
+            "",
+            " note",
+            " a comment with several words in it",
+            " TODO: something fairly long that may need wrapping when the width is small enough",
+            " ünïcode ✓",
+        ]);
+        let body = if block {
+            if c.chance(1, 6) {
+                format!("/* {payload}{words}\n   second line of {payload} */")
+            } else {
+                format!("/* {payload}{words} */")
+            }
+        } else {
+            format!("// {payload}{words}")
+        };
+        if !text.is_empty() && !text.ends_with([' ', '\n', '\t']) {
+            text.push(' ');
+        }
+        let at = text.len();
+        text.push_str(&body);
+        comments.push(CommentInfo {
+            payload,
+            text: body,
+            block,
+            slot,
+            at,
+        });
+        if !block {
+            *force_newline = true;
+        }
+    };
+
+    for (pi, piece) in prog.pieces.iter().enumerate() {
+        match piece {
+            Piece::NodeStart(k, id, in_fn) => {
+                pending_start.push((*id, *k, *in_fn));
+            }
+            Piece::NodeEnd(id) => {
+                if let Some(pos) = open.iter().rposition(|(i, ..)| i == id) {
+                    let (i, k, in_fn, lo) = open.remove(pos);
+                    if k.is_stmt() && in_fn {
+                        stmt_depth = stmt_depth.saturating_sub(1);
+                    }
+                    if k == NodeKind::NestedItem {
+                        nested_items = nested_items.saturating_sub(1);
+                    }
+                    if Some(i) == ro.wild_node {
+                        wild_depth = wild_depth.saturating_sub(1);
+                    }
+                    nodes.push(NodeInfo {
+                        id: i,
+                        kind: k,
+                        in_fn,
+                        lo,
+                        hi: text.len(),
+                    });
+                } else {
+                    // node without tokens
+                    pending_start.retain(|(i, ..)| i != id);
+                }
+            }
+            Piece::Slot(k) => {
+                if ro.comment_p > 0 && wild_depth == 0 && c.chance(ro.comment_p, 16) {
+                    if *k == SlotKind::EndOfLine {
+                        // same line as the preceding separator
+                        if force_newline {
+                            continue;
+                        }
+                    } else if !text.is_empty() && !force_newline {
+                        // own line or same line, both occur
+                        if c.flip() {
+                            text.push('\n');
+                        }
+                    }
+                    if force_newline {
+                        text.push('\n');
+                        force_newline = false;
+                    }
+                    push_comment(&mut text, &mut comments, c, &mut next_comment, k.name(), &mut force_newline);
+                }
+            }
+            Piece::Tok(s) => {
+                // whitespace before the token
+                if let Some(prev) = &prev_tok {
+                    let wild = if wild_depth > 0 { 3 } else { ro.wild };
+                    let mut ws: String = match wild {
+                        0 => {
+                            let p = prev.as_str();
+                            if p == "{" {
+                                indent += 1;
+                            }
+                            if s == "}" {
+                                indent = indent.saturating_sub(1);
+                            }
+                            let word_end = p.chars().last().map(is_word_char).unwrap_or(false);
+                            if matches!(s.as_str(), "," | ";" | ")" | "]") {
+                                String::new()
+                            } else if matches!(p, ";" | "{" | "}") || p.starts_with("//") {
+                                format!("\n{}", "    ".repeat(indent))
+                            } else if matches!(p, "(" | "[") {
+                                String::new()
+                            } else if s == "(" && word_end && !matches!(p, "if" | "in" | "match" | "while" | "return" | "as" | "mut" | "const" | "else" | "for" | "let") {
+                                String::new()
+                            } else {
+                                " ".to_string()
+                            }
+                        }
+                        1 => {
+                            if c.chance(1, 6) {
+                                (*c.pick(WS_WILD)).to_string()
+                            } else if may_glue(prev, s) && c.flip() {
+                                String::new()
+                            } else {
+                                " ".to_string()
+                            }
+                        }
+                        2 => {
+                            if c.chance(1, 2) {
+                                (*c.pick(WS_WILD)).to_string()
+                            } else if may_glue(prev, s) && c.flip() {
+                                String::new()
+                            } else {
+                                " ".to_string()
+                            }
+                        }
+                        _ => {
+                            if may_glue(prev, s) && c.chance(1, 4) {
+                                String::new()
+                            } else {
+                                (*c.pick(WS_WILD)).to_string()
+                            }
+                        }
+                    };
+                    if prev.starts_with("//") && !ws.starts_with('\n') {
+                        ws.insert(0, '\n');
+                    }
+                    if force_newline {
+                        if !ws.starts_with('\n') {
+                            ws.insert(0, '\n');
+                        }
+                        force_newline = false;
+                    } else if text.ends_with("*/") && ws.is_empty() {
+                        ws.push(' ');
+                    }
+                    text.push_str(&ws);
+                    // a comment at an arbitrary token boundary inside a fn-body statement
+                    if ro.in_stmt_p > 0 && stmt_depth > 0 && nested_items == 0 && wild_depth == 0 && pending_start.is_empty() && c.chance(ro.in_stmt_p, 64) {
+                        push_comment(&mut text, &mut comments, c, &mut next_comment, "in-stmt", &mut force_newline);
+                        if force_newline {
+                            text.push('\n');
+                            force_newline = false;
+                        } else {
+                            text.push(' ');
+                        }
+                    }
+                } else if force_newline {
+                    text.push('\n');
+                    force_newline = false;
+                } else if text.ends_with("*/") {
+                    text.push(' ');
+                }
+                // open pending nodes at this token
+                for (id, k, in_fn) in pending_start.drain(..) {
+                    if Some(id) == ro.wild_node {
+                        text.push_str(&ro.node_prefix);
+                        wild_depth += 1;
+                    }
+                    if k.is_stmt() && in_fn {
+                        stmt_depth += 1;
+                    }
+                    if k == NodeKind::NestedItem {
+                        nested_items += 1;
+                    }
+                    open.push((id, k, in_fn, text.len()));
+                }
+                // for the wild node the prefix must come before `lo`; fix up lo of that node
+                if let Some(w) = ro.wild_node {
+                    if let Some(e) = open.iter_mut().find(|(i, ..)| *i == w) {
+                        if e.3 == text.len() && !ro.node_prefix.is_empty() {
+                            e.3 = text.len() - ro.node_prefix.len();
+                        }
+                    }
+                }
+                text.push_str(s);
+                prev_tok = Some(s.clone());
+                let _ = pi;
+            }
+        }
+    }
+    if !text.ends_with('\n') {
+        text.push('\n');
+    }
+    Rendered {
+        text,
+        comments,
+        nodes,
     }
 }
